@@ -367,6 +367,8 @@ def str_of(x):
         return vs(x.term)
     if isinstance(x, str):
         return z3.StringVal(x)
+    if x is None:
+        return z3.StringVal('')     # total semantics of the spec language (always under a guard)
     if z3.is_expr(x) and x.sort() == StrS:
         return x
     raise Unsupported('not a str: %r' % (x,))
